@@ -3,7 +3,7 @@ from __future__ import annotations
 
 from fractions import Fraction
 
-from .. import core, gen, impl_thr, scen
+from .. import core, gen, impl_thr, runlib, scen
 from . import c01
 
 ID = "C04"
@@ -32,6 +32,13 @@ def scenarios(rng, n, tier):
             scn = scen.gen_life(rng, opts)
             # the count / exactly-once clauses hold for every worker count (batch compared as a set)
             scn["n_threads"] = rng.choice([1, 1, 1, 0, 2, 4])
+            if rng.random() < 0.15:
+                # "regardless ... of the execution limit": a limited scheduler, most polls forced; the ordinary polls of
+                # such a scenario are compared with the model's selection only (the no-limit Spec does not apply)
+                scn["max_exec"] = rng.choice([1, 1, 2, 3])
+                for o in scn["ops"]:
+                    if o["op"] == "exec" and rng.random() < 0.6:
+                        o["force"] = True
             yield scn
 
 
@@ -84,7 +91,7 @@ def specs(r):
             prev = r["obs"][i - 1]["jobs"] if i > 0 else {}
             reg = [k for k, v in prev.items() if v[5] == 1]
             qs.append((f"spec force {core.s_list(reg)} {core.s_list(inv)} {ret}", {"what": "force", "op": i}))
-        else:
+        elif not scn.get("max_exec", 0):
             tab = table_of(ob, o["clock"])
             qs.append((f"spec c04 {o['clock']} {len(tab)} " + " ".join(f"{k} {d} {w_tokens(w)}" for k, d, w in tab)
                        + f" {core.s_list(inv)} {ret}", {"what": "due_exactly", "op": i}))
@@ -94,7 +101,7 @@ def specs(r):
 def direct_specs(r):
     """a poll at which nothing is due changes no job and no due time; the priority function sees the
     whole registry"""
-    fails = []
+    fails = runlib.waiting_unchanged(r)
     for i, (o, ob) in enumerate(zip(r["scn"]["ops"], r["obs"])):
         if "truncated" in ob:
             break
